@@ -95,6 +95,8 @@ def s_C14(tier, rng):
             ("serde_big", gen.serde_big(tier, rng)),
             ("serde_roundtrip", gen.serde_roundtrip(tier, rng, Q(tier, 2000, 30000))),
             ("serde_stream", gen.serde_stream(tier, rng, Q(tier, 600, 6000))),
+            ("serde_wide", gen.serde_wide(tier, rng, Q(tier, 40, 800))),
+            ("serde_full_keyspace", gen.serde_full_keyspace(rng)),
             ("keyfill", gen.keyfill(tier, rng)),
             ("random_histories", gen.random_histories(tier, rng, Q(tier, 400, 5000)))]
 
@@ -103,6 +105,8 @@ def s_C15(tier, rng):
             ("serde_in_place", gen.serde_in_place(tier, rng, Q(tier, 300, 3000))),
             ("serde_big", gen.serde_big(tier, rng)),
             ("serde_stream", gen.serde_stream(tier, rng, Q(tier, 3000, 50000))),
+            ("serde_wide", gen.serde_wide(tier, rng, Q(tier, 100, 2000))),
+            ("serde_full_keyspace", gen.serde_full_keyspace(rng)),
             ("serde_roundtrip", gen.serde_roundtrip(tier, rng, Q(tier, 500, 5000)))]
 
 def s_C16(tier, rng):
@@ -122,6 +126,7 @@ def s_C17(tier, rng):
                 yield gen.random_history(_r.Random(seed), f"rt{k}-{V}", Q(tier, 40, 120), V=V)
     return [("corpus", gen.corpus()),
             ("collections", gen.collections(tier, rng, Q(tier, 1000, 15000))),
+            ("collections_bulk", gen.collections_bulk(tier, rng, Q(tier, 40, 1500))),
             ("routed_histories", routed()),
             ("statics_routes", gen.statics_routes(tier, rng, Q(tier, 600, 6000))),
             ("views", gen.views(tier, rng, Q(tier, 400, 4000)))]
@@ -141,10 +146,10 @@ PROPS = {
     "C01": {"translate": ["arena", "lockfree", "rodeo", "threaded", "views"], "streams": s_C01, "monitors": ["C01"], "conc_monitors": ["C03", "C05", "C16"]},
     "C02": {"translate": ["rodeo", "threaded", "views", "clone"], "streams": s_C02, "monitors": ["C02"], "props_extra": ["C02H"], "conc_monitors": ["C03"]},
     "C04": {"translate": ["arena", "lockfree", "rodeo"], "streams": s_C04, "monitors": ["C04"], "conc_monitors": ["C05", "C04", "PANIC"], "props_extra": ["C04D", "C05R"], "orderings": True, "sreplay": True, },
-    "C06": {"translate": ["rodeo", "threaded", "views"], "streams": s_C06, "monitors": ["C06", "C01", "C02"], "props_extra": ["C06B"]},
+    "C06": {"translate": ["rodeo", "threaded", "views", "iters"], "streams": s_C06, "monitors": ["C06", "C01", "C02"], "props_extra": ["C06B"]},
     "C07": {"translate": ["keys", "rodeo", "threaded"], "streams": s_C07, "monitors": ["C07"], "conc_monitors": ["C07"]},
     "C08": {"translate": ["arena", "lockfree"], "streams": s_C08, "monitors": ["C08"], },
-    "C10": {"translate": ["rodeo", "threaded", "clone"], "streams": s_C10, "monitors": ["C10"]},
+    "C10": {"translate": ["rodeo", "threaded", "clone", "iters"], "streams": s_C10, "monitors": ["C10"]},
     "C12": {"translate": ["arena", "rodeo", "clone"], "streams": s_C12, "monitors": ["C12", "C01", "C02"]},
     "C13": {"translate": ["arena", "rodeo"], "streams": s_C13, "monitors": ["C13", "C01", "C02", "C07", "C08", "C10"]},
     "C14": {"streams": s_C14, "monitors": ["C14", "C01", "C02", "C10", "EXP"], "conc_monitors": ["C14"]},
